@@ -21,7 +21,7 @@ from vlib.core import PropertyViolation, Recorder, hyp_search, violation_record,
 PROPERTY = "C13"
 RULE = (
     "case = population of 2-5 instances over {Base, Sub(Base), EqAll (== always true, hashable), EqNoHash (== "
-    "always true, unhashable)} x receiver name (self/me) x selector (class / object / dotted path / nested under "
+    "always true, unhashable), Falsy (len 0), FalsyList (empty list subclass)} x receiver name (self/me) x selector (class / object / dotted path / nested under "
     "sweep) on method kind (plain, functools.wraps-decorated, property, property over a decorated getter) x focus (w body variable, v parameter) x "
     "call sequence incl. the same-named plain function. Non-trivial = the population has two distinct-but-equal "
     "or an unhashable instance, and both probed and non-probed receivers are called; distinct by case."
@@ -88,6 +88,24 @@ class EqNoHash(Base):
         return True
 
 
+class Falsy(Base):
+    def __len__(self):
+        return 0
+
+
+class FalsyList(list):
+    k = 0
+
+    def __init__(self, k):
+        super().__init__()
+        self.k = k
+
+    meth = Base.meth
+    dmeth = Base.dmeth
+    prop = Base.prop
+    dprop = Base.dprop
+
+
 def meth(v):
     w = v - 1
     return w
@@ -104,7 +122,7 @@ class Holder:
     pass
 '''
 
-CLASSES = ["Base", "Sub", "EqAll", "EqNoHash"]
+CLASSES = ["Base", "Sub", "EqAll", "EqNoHash", "Falsy", "FalsyList"]
 
 
 def expected_w(kind, k, v):
@@ -112,6 +130,15 @@ def expected_w(kind, k, v):
 
 
 def check_case(recv, pop, calls, sel, rec=None):
+    """sel may carry a 5th element: the index of a second object probed AFTER the first probe has
+    ended (same method, same process): every object selector must bind to its own receiver."""
+    if len(sel) > 4 and sel[4] is not None and sel[0] == "object":
+        _check_one(recv, pop, calls, sel[:4], None, prelude=None)
+        return _check_one(recv, pop, calls, (sel[0], sel[4], sel[2], sel[3]), rec, prelude=sel[1])
+    return _check_one(recv, pop, calls, sel[:4], rec, prelude=None)
+
+
+def _check_one(recv, pop, calls, sel, rec=None, prelude=None):
     """pop: [(classname, k)]; calls: [("m", i, kind, v) | ("plain", v) | ("sweep", v)];
     sel: (path, target index or None, method kind, focus)."""
     from ptera import probing
@@ -120,6 +147,12 @@ def check_case(recv, pop, calls, sel, rec=None):
     _, glb = PR.load(src, name="meth")
     objs = [glb[c](k) for c, k in pop]
     path, ti, kind, focus = sel
+    if prelude is not None:
+        # a first probe on another object of the population, already ended
+        from ptera import probing as _p
+
+        with _p(f"o{prelude}.{kind} > {focus}", env={f"o{prelude}": objs[prelude]}):
+            pass
     env = {"Base": glb["Base"], "Sub": glb["Sub"], "meth": glb["meth"], "sweep": glb["sweep"]}
     for i, o in enumerate(objs):
         env[f"o{i}"] = o
@@ -205,13 +238,16 @@ def check_case(recv, pop, calls, sel, rec=None):
                 raise PropertyViolation("receiver", f"event {d} does not carry the receiver object o{i}\n{ctxt}")
     if rec is not None:
         classes = {c for c, _ in pop}
-        tricky = ("EqAll" in classes and sum(1 for c, _ in pop if c == "EqAll") >= 2) or "EqNoHash" in classes
+        tricky = ("EqAll" in classes and sum(1 for c, _ in pop if c == "EqAll") >= 2) or bool(
+            classes & {"EqNoHash", "Falsy", "FalsyList"})
         called = {c[1] for c in calls if c[0] == "m"} | (set(range(len(pop))) if any(c[0] == "sweep" for c in calls) else set())
         both = by_object and ti in called and len(called - {ti}) >= 1
         feats = {"path:" + path, "kind:" + kind, "recv:" + recv, "focus:" + focus}
         if tricky:
             feats.add("equal-or-unhashable")
-        rec.case(h64(repr((recv, pop, calls, sel))), bool(tricky and (both or not by_object)), feats,
+        if prelude is not None:
+            feats.add("second-object-probe")
+        rec.case(h64(repr((recv, pop, calls, sel, prelude))), bool(tricky and (both or not by_object)), feats,
                  sample=lambda: {"population": pop, "selector": text, "calls": calls[:6], "events": want[:6]})
 
 
@@ -231,7 +267,7 @@ def strategy():
     def cases(draw):
         recv = draw(st.sampled_from(["self", "me"]))
         n = draw(st.integers(2, 5))
-        pop = [(draw(st.sampled_from(CLASSES + ["EqAll", "EqNoHash"])), draw(st.integers(0, 3))) for _ in range(n)]
+        pop = [(draw(st.sampled_from(CLASSES + ["EqAll", "EqNoHash", "EqAll"])), draw(st.integers(0, 3))) for _ in range(n)]
         path = draw(st.sampled_from(["class", "subclass", "object", "object", "dotted", "nested"]))
         kind = draw(st.sampled_from(["meth", "meth", "dmeth", "prop", "dprop"]))
         ti = draw(st.integers(0, n - 1))
@@ -250,7 +286,10 @@ def strategy():
             else:
                 ck = kind if draw(st.integers(0, 2)) else draw(st.sampled_from(["meth", "dmeth", "prop", "dprop"]))
                 calls.append(("m", draw(st.integers(0, n - 1)), ck, draw(st.integers(0, 5))))
-        return recv, pop, calls, (path, ti, kind, focus)
+        second = draw(st.integers(0, n - 1)) if path == "object" and draw(st.booleans()) else None
+        if second == ti:
+            second = None
+        return recv, pop, calls, (path, ti, kind, focus, second)
 
     return cases()
 
